@@ -72,17 +72,22 @@ fn run(src: &Path, out: &Path) -> Result<(), String> {
     {
         let mut sites = Vec::new();
         let mut fns = Vec::new();
+        let mut lockexts = Vec::new();
         for (f, name) in [(&map, "map.rs"), (&node, "node.rs"), (&set, "set.rs"), (&map_ref, "map_ref.rs"), (&set_ref, "set_ref.rs")] {
             let (s, f2) = atomics::scan(f, name);
             sites.extend(s);
             fns.extend(f2);
+            lockexts.extend(atomics::scan_locks(f, name));
         }
         for rel in ["raw/mod.rs", "iter/traverser.rs", "iter/mod.rs", "serde_impls.rs", "rayon_impls.rs"] {
             let f = parse(src, rel)?;
             let (s, f2) = atomics::scan(&f, rel);
             sites.extend(s);
             fns.extend(f2);
+            lockexts.extend(atomics::scan_locks(&f, rel));
         }
+        let n_lock_sites: usize = fns.iter().map(|f| f.blocking.iter().filter(|b| b.0 == "lock").count()).sum();
+        write_if_changed(&out.join("GenLocks.v"), &atomics::locks_to_coq(&lockexts, n_lock_sites));
         write_if_changed(&out.join("GenAtomics.v"), &atomics::to_coq(&sites, &fns));
         json.push_str("\"atomics\": [\n");
         json.push_str(
